@@ -180,6 +180,11 @@ def run_case(spec, sol_kind, fva_kind):
             if cap.last is not None:
                 fail("summary:ignores-given-solution", "a solution was passed in but the summary computed pFBA")
             return s, given
+        if cap.last is None:
+            # documented: "If None, the summary method will generate a parsimonious flux distribution"; without seeing that
+            # call the driver cannot know which solution is described - reported instead of silently skipping the checks
+            fail("summary:default-solution-not-observed", "no solution was passed in and the summary did not call pfba "
+                 "through the name imported into cobra.summary.*")
         return s, cap.last
 
     def side_rows(frame):
